@@ -37,6 +37,8 @@ func main() {
 		cmdLTS(os.Args[2:])
 	case "drive":
 		cmdDrive(os.Args[2:])
+	case "pullreplay":
+		cmdPullReplay(os.Args[2:])
 	case "mergenil":
 		cmdMergeNil(os.Args[2:])
 	case "helpers":
